@@ -341,6 +341,46 @@ example : SMono ([0, 1, 2] : List ℝ) ∧ SMono ([0, 0.5, 1, 2, 3] : List ℝ) 
   · unfold SMono SMono SMono SMono SMono; norm_num
   · intro x hx; simp at hx ⊢; rcases hx with rfl | rfl | rfl <;> simp
 
+/-! ## 4b. Re-binning a two-level histogram (MultiIndex of two interval levels) -/
+
+/-- Each target cell receives from each source cell its content times the product of the per-level shares. -/
+theorem rebin2d_cell_is_product (pl pr ql qr : ℝ) (c : Cell ℝ) :
+    share2 pl pr ql qr c = c.v * (kap pl pr c.xl c.xr * kap ql qr c.yl c.yr) :=
+  share2_eq pl pr ql qr c
+
+/-- Two-level re-bin to gap-free binnings that cover every source cell on both levels conserves the total
+(source cells of positive width on both levels). -/
+theorem rebin2d_conserves_total (cells : List (Cell ℝ)) (x0 y0 : ℝ) (xr yr : List ℝ)
+    (hmx : Mono (x0 :: xr)) (hmy : Mono (y0 :: yr))
+    (hpos : ∀ c ∈ cells, c.xl < c.xr ∧ c.yl < c.yr)
+    (hcovx : ∀ c ∈ cells, x0 ≤ c.xl ∧ c.xr ≤ (x0 :: xr).getLast (List.cons_ne_nil _ _))
+    (hcovy : ∀ c ∈ cells, y0 ≤ c.yl ∧ c.yr ≤ (y0 :: yr).getLast (List.cons_ne_nil _ _)) :
+    total ((rebin2 cells (x0 :: xr) (y0 :: yr)).map total) = (cells.map (·.v)).sum := by
+  rw [total_rebin2]
+  congr 1
+  apply List.map_congr_left
+  intro c hc
+  rw [kap_sum c.xl c.xr x0 xr hmx (hpos c hc).1 (hcovx c hc).1 (hcovx c hc).2,
+    kap_sum c.yl c.yr y0 yr hmy (hpos c hc).2 (hcovy c hc).1 (hcovy c hc).2]
+  ring
+
+example : Mono ([0, 0.25, 1] : List ℝ) ∧ Mono ([0, 4, 10, 12] : List ℝ) ∧
+    ∀ c ∈ ([⟨0, 0.5, 0, 5, 1⟩, ⟨0.5, 1, 5, 10, 4⟩] : List (Cell ℝ)), c.xl < c.xr ∧ c.yl < c.yr := by
+  refine ⟨by unfold Mono Mono Mono; norm_num, by unfold Mono Mono Mono Mono; norm_num, ?_⟩
+  intro c hc; simp at hc; rcases hc with rfl | rfl <;> norm_num
+
+/-- The target binning of a level is found by the level's name: listing the target's levels in the
+histogram's order or in the other order gives the same re-bin. -/
+theorem rebin2d_by_level_name (n1 n2 : String) (h : n1 ≠ n2) (bx bys : List ℝ) (cells : List (Cell ℝ)) :
+    rebin2Named (n1, n2) [(n1, bx), (n2, bys)] cells = rebin2 cells bx bys ∧
+    rebin2Named (n1, n2) [(n2, bys), (n1, bx)] cells = rebin2 cells bx bys := by
+  have h' : n2 ≠ n1 := fun e => h e.symm
+  have e1 : (n1 == n2) = false := beq_false_of_ne h
+  have e2 : (n2 == n1) = false := beq_false_of_ne h'
+  constructor <;> simp [rebin2Named, pickBreaks, List.find?, e1, e2]
+
+example : ("from" : String) ≠ "to" := by decide
+
 /-! ## 5. Combining -/
 
 /-- `combine_histogram(…, 'sum')` conserves the grand total. -/
